@@ -325,6 +325,22 @@ def check_convert(case, ctx):
                  what='convert')
     ctx.check(close([list(p) for p in b.ctrlpts], [list(p) for p in o.ctrlpts]), 'convert/roundtrip-ctrlpts',
               'B-spline -> NURBS -> B-spline changed control points', what='convert')
+    # the wrong converter on a genuinely rational shape: refused (as documented: TypeError), or an identically evaluating shape - never the
+    # same control points with the weights thrown away
+    rr = convert.bspline_to_nurbs(o)
+    Wr = [rng.uniform(0.3, 3.0) for _ in sd['ctrlpts']]
+    rr.weights = list(Wr)
+    Sr = G.defn_of(rr)
+    ctx.tag('convert:rational-into-b2n')
+    try:
+        r3 = convert.bspline_to_nurbs(rr)
+    except TypeError:
+        ctx.ok('convert')
+    else:
+        for q in prs:
+            ctx.near(G.evaluate_single(r3, q), Sr.point(q), 1e-9 * so.scale_of_defn(Sr), 'convert/b2n-drops-weights', 'bspline_to_nurbs given a rational '
+                     'shape returned a shape with weights %r... (input %r...): it evaluates differently at %r' % (list(r3.weights)[:3], Wr[:3], q),
+                     what='convert')
     # a genuinely rational shape cannot be turned into a non-rational one: whatever nurbs_to_bspline returns must evaluate identically
     for wcls in ('below-one', 'above-one', 'mixed'):
         r2 = convert.bspline_to_nurbs(o)
